@@ -3,6 +3,7 @@ package powsim
 import (
 	"context"
 	"fmt"
+	"math"
 	"runtime/debug"
 	"sort"
 	"testing"
@@ -37,6 +38,8 @@ type crowdCall struct {
 
 	cancelled bool
 	wraps     int
+
+	cancelledAtReturn bool
 }
 
 func (w *world) simulateCrowd(choices []int) {
@@ -44,7 +47,11 @@ func (w *world) simulateCrowd(choices []int) {
 	base := kernel.Census()
 	// one oracle under which nobody ever finds — except a lane whose input is not (digest of ITS call's data, nonce, 000):
 	// such a lane hashes another message than the one its call is mining, and the oracle lets it qualify (see SimInput)
-	st := newStub(cfg.Stub, cfg.craftCtx())
+	var perCall []craftCtx
+	for i := range cfg.CrowdTargets {
+		perCall = append(perCall, makeCraftCtx(cfg.Version, len(cfg.callData(i))+8, cfg.callTarget(i)))
+	}
+	st := newStub(cfg.Stub, cfg.craftCtx(), perCall...)
 	st.special[wrongInputNonce] = make([]int8, ref.HashLen)
 	for i := 0; i < cfg.Crowd; i++ {
 		d := blake2b.Sum256(cfg.callData(i))
@@ -82,15 +89,16 @@ func (w *world) simulateCrowd(choices []int) {
 			kernel.Yield("caller.start", Caller)
 			var n uint64
 			var err error
+			tb := cfg.callTarget(idx)
 			switch {
 			case cfg.Version == 1 && shared1 != nil:
-				n, err = shared1.Mine(c.ctx, data, cfg.targetF())
+				n, err = shared1.Mine(c.ctx, data, math.Float64frombits(tb))
 			case cfg.Version == 1:
-				n, err = pow1.New(cfg.Workers).Mine(c.ctx, data, cfg.targetF())
+				n, err = pow1.New(cfg.Workers).Mine(c.ctx, data, math.Float64frombits(tb))
 			case shared2 != nil:
-				n, err = shared2.Mine(c.ctx, data, cfg.TargetBits)
+				n, err = shared2.Mine(c.ctx, data, tb)
 			default:
-				n, err = pow2.New(cfg.Workers).Mine(c.ctx, data, cfg.TargetBits)
+				n, err = pow2.New(cfg.Workers).Mine(c.ctx, data, tb)
 			}
 			c.res <- mineRet{nonce: n, err: err}
 		}()
@@ -105,12 +113,15 @@ func (w *world) simulateCrowd(choices []int) {
 	// gives a caller one step, and it needs several steps per worker: left to round-robin, starting 5 x 64 workers would
 	// take a hundred thousand steps). Phase 2: twenty-five fair rounds, so that every worker has started mining (or is waiting for whatever it needs to start). Phase 3: the
 	// calls are cancelled one at a time, call K-1 first, each after the previous one has returned.
-	spawned, settle, waitSpins := false, 0, 0
+	spawned, settle, waitSpins, sinceReturn := false, 0, 0, 8
 	// which call is cancelled next: the one with the most workers waiting for a lock or a channel (a call that is being
 	// starved of some process-wide resource is the interesting victim), the highest-numbered one on a tie; never before
 	// the previously cancelled call has returned
 	cancelDue := func(parked []kernel.Enabled) int {
-		if !spawned || settle < 25 {
+		// twenty-five fair rounds before the first cancellation, and eight after a call has returned before the next one
+		// is cancelled: what the OTHER calls do when one of them goes away (return, although nobody cancelled them?) must
+		// have time to show
+		if !spawned || settle < 25 || sinceReturn < 8 {
 			return -1
 		}
 		for _, c := range calls {
@@ -127,6 +138,24 @@ func (w *world) simulateCrowd(choices []int) {
 			}
 		}
 		best := -1
+		switch cfg.CrowdOrder {
+		case "lowest":
+			for i, c := range calls {
+				if !c.cancelled {
+					return i
+				}
+			}
+		case "random":
+			var open []int
+			for i, c := range calls {
+				if !c.cancelled {
+					open = append(open, i)
+				}
+			}
+			if len(open) > 0 {
+				return open[int(kernel.Mix(cfg.Strat.Seed, 0xca2ce1, uint64(len(open)))%uint64(len(open)))]
+			}
+		}
 		for i, c := range calls {
 			if !c.cancelled && (best < 0 || waiting[i] >= waiting[best]) {
 				best = i
@@ -144,6 +173,8 @@ func (w *world) simulateCrowd(choices []int) {
 				select {
 				case c.ret = <-c.res:
 					c.returned = true
+					c.cancelledAtReturn = c.cancelled // what counts is whether ITS context had been cancelled by then
+					sinceReturn = 0
 				default:
 					all = false
 				}
@@ -168,7 +199,8 @@ func (w *world) simulateCrowd(choices []int) {
 		if !spawned && !w.replay {
 			spawned = true
 			for i := range en {
-				if e := en[i]; e.Who%kernel.CallStride == 0 && e.Site != "mine.wait" && e.Site != "cancel.fire" {
+				// a caller that waits for a channel or a lock (say, for another call's result) has settled as well
+				if e := en[i]; e.Who%kernel.CallStride == 0 && e.Site != "mine.wait" && e.Site != "cancel.fire" && !kernel.IsWaitSite(e.Site) {
 					spawned = false
 					if forced == nil {
 						forced = &en[i]
@@ -230,6 +262,7 @@ func (w *world) simulateCrowd(choices []int) {
 		if k.Wrapped() {
 			if spawned {
 				settle++
+				sinceReturn++
 			}
 			for i, c := range calls {
 				if c.cancelled && !c.returned {
@@ -245,6 +278,14 @@ func (w *world) simulateCrowd(choices []int) {
 		}
 		k.Wake(e.Who)
 	}
+	// cancellers that were never needed (their call returned by itself) are let go before the census: they are the
+	// simulator's own goroutines
+	for _, e := range k.Parked() {
+		if e.Site == "cancel.fire" {
+			k.Wake(e.Who)
+		}
+	}
+	k.Quiesce()
 	w.returned = true
 	for i, c := range calls {
 		if !c.returned {
@@ -254,10 +295,12 @@ func (w *world) simulateCrowd(choices []int) {
 		switch {
 		case c.ret.panic != "":
 			w.violate("panic:"+firstLine(c.ret.panic), c.ret.panic, nil)
+		case c.ret.err == nil && w.crowdNonceQualifies(st, i, c.ret.nonce):
+			w.probes["concurrent_call_found_while_others_mine"] = 1
 		case c.ret.err == nil:
-			w.violate("nonce-below-target", fmt.Sprintf("call %d of %d concurrent calls (one Worker object for all: %v) returned nonce %d although no nonce qualifies for its message under the run's hash oracle (a lane qualifies only if what it hashed was not its own call's digest and nonce)", i, len(calls), cfg.SharedWorker, c.ret.nonce), nil)
-		case !c.cancelled:
-			w.violate("cancelled-without-cancel", fmt.Sprintf("call %d returned %q although its own context had not been cancelled", i, c.ret.err), nil)
+			w.violate("nonce-below-target", fmt.Sprintf("call %d of %d concurrent calls (one Worker object for all: %v) returned nonce %d, whose hash under the run's oracle has %d trailing zeros: that does not meet this call's own target for its own message (%s; a lane whose input is not its own call's digest and nonce hashes to all zeros)", i, len(calls), cfg.SharedWorker, c.ret.nonce, ref.TrailingZeros(st.Trits(c.ret.nonce)), cfg.TargetNote), nil)
+		case !c.cancelledAtReturn:
+			w.violate("cancelled-without-cancel", fmt.Sprintf("call %d of %d concurrent calls (one Worker object for all: %v, same message: %v) returned %q although its own context had not been cancelled when it returned", i, len(calls), cfg.SharedWorker, cfg.CrowdSame, c.ret.err), nil)
 		}
 	}
 	if w.returned && w.res.Class == "" && w.res.Diverged == "" {
@@ -283,6 +326,22 @@ func (w *world) simulateCrowd(choices []int) {
 		w.probes["more_than_256_live_workers"] = 1
 	}
 	w.sampleTrace()
+}
+
+// crowdNonceQualifies judges a nonce returned by call i of a crowd run under the run's oracle, for that call's own
+// message length and target.
+func (w *world) crowdNonceQualifies(st *stub, i int, nonce uint64) bool {
+	cfg := w.cfg
+	if len(cfg.CrowdTargets) == 0 {
+		return false // nobody can find in such a run
+	}
+	trits := st.Trits(nonce)
+	L := len(cfg.callData(i)) + 8
+	if cfg.Version == 1 {
+		return ref.TrailingZeros(trits) >= ref.V1RequiredZeros(L, math.Float64frombits(cfg.callTarget(i)))
+	}
+	p, ok := ref.V2Product(L, cfg.callTarget(i))
+	return ok && ref.V2Classify(trits, p) != ref.V2No
 }
 
 // callOfActor maps a scheduled actor id back to its call (ids of call c lie in [c*stride-3, c*stride+stride-4]).
